@@ -103,13 +103,15 @@ type vfRule struct {
 	UntilMs int    `json:"until,omitempty"`
 	Msg     int    `json:"msg,omitempty"`  // "msg": drop packets carrying a chunk of message id Msg (J times; 0 = every time)
 	Frag    int    `json:"frag,omitempty"` // "msg": 0 = any fragment, k>0 = only fragment index k-1
+	FromMs  int    `json:"from,omitempty"` // "blackout": drop everything this side sends in [FromMs, UntilMs)
 	cnt     int
 }
 
 type vfFaults struct {
-	Pos    [2][]vfFD `json:"pos"`
-	Rules  []vfRule  `json:"rules,omitempty"`
-	HealMs int       `json:"heal,omitempty"` // no fault is applied at or after this instant (0 = never heals by time; positional faults end by count)
+	PosFromMs int       `json:"posfrom,omitempty"` // positional faults count packets sent at or after this instant only
+	Pos       [2][]vfFD `json:"pos"`
+	Rules     []vfRule  `json:"rules,omitempty"`
+	HealMs    int       `json:"heal,omitempty"` // no fault is applied at or after this instant (0 = never heals by time; positional faults end by count)
 }
 
 type vfAct struct {
@@ -257,13 +259,22 @@ func (s *vfSim) installFaults() {
 		f.Rules[i].cnt = 0
 	}
 	heal := time.Duration(f.HealMs) * time.Millisecond
+	var posCount [2]int
 	s.net.fate = func(ev *vfWireEv) vfFate {
 		var fate vfFate
 		if f.HealMs > 0 && ev.T >= heal {
 			return fate
 		}
-		if ev.N < len(f.Pos[ev.Side]) {
-			d := f.Pos[ev.Side][ev.N]
+		idx := ev.N
+		if f.PosFromMs > 0 {
+			idx = -1
+			if ev.T >= time.Duration(f.PosFromMs)*time.Millisecond {
+				idx = posCount[ev.Side]
+				posCount[ev.Side]++
+			}
+		}
+		if idx >= 0 && idx < len(f.Pos[ev.Side]) {
+			d := f.Pos[ev.Side][idx]
 			fate = vfFate{Drop: d.Drop, Dup: d.Dup, Delay: time.Duration(d.DelayMs) * time.Millisecond}
 		}
 		if ev.P == nil {
@@ -279,6 +290,8 @@ func (s *vfSim) installFaults() {
 			}
 			hit := false
 			switch r.Kind {
+			case "blackout":
+				hit = ev.T >= time.Duration(r.FromMs)*time.Millisecond
 			case "tsn":
 				want := s.sc.Cfg[ev.Side].TSN + r.Off
 				for k := range ev.P.Chunks {
